@@ -45,7 +45,10 @@ type c10use struct {
 
 const c10defs = `package main
 
-import "host"
+import (
+	"host"
+	"sync"
+)
 
 func F(x int) int { return 7*x + 1 }
 
@@ -62,17 +65,109 @@ var MV = T0.M
 func CC() int {
 	c := make(chan int)
 	go func() {
-		host.Delay()
+		host.Wait()
 		c <- 42
 	}()
 	v := <-c
 	return v + 1
 }
+
+// the same rendez-vous through the other blocking constructs; the partner first waits in the host
+// (host.Wait: a short delay, or until the harness lets it go)
+func CSend() int {
+	c := make(chan int)
+	r := make(chan int, 1)
+	go func() {
+		host.Wait()
+		v := <-c
+		r <- v
+	}()
+	c <- 42
+	return <-r + 1
+}
+
+func CRecv2() int {
+	c := make(chan int)
+	go func() {
+		host.Wait()
+		c <- 42
+	}()
+	v, ok := <-c
+	if !ok {
+		return -1
+	}
+	return v + 1
+}
+
+func CRange() int {
+	c := make(chan int)
+	go func() {
+		host.Wait()
+		c <- 42
+	}()
+	for v := range c {
+		return v + 1
+	}
+	return -1
+}
+
+func CSel() int {
+	c := make(chan int)
+	d := make(chan int)
+	go func() {
+		host.Wait()
+		c <- 42
+	}()
+	select {
+	case v := <-c:
+		return v + 1
+	case v := <-d:
+		return v
+	}
+}
+
+// bodies without channels: mutex and WaitGroup, calls of other definitions, a function literal
+// created and called inside the call
+func MU() int {
+	var mu sync.Mutex
+	var wg sync.WaitGroup
+	n := 0
+	for i := 0; i < 3; i++ {
+		wg.Add(1)
+		go func() {
+			mu.Lock()
+			n++
+			mu.Unlock()
+			wg.Done()
+		}()
+	}
+	wg.Wait()
+	return n + 40
+}
+
+func CO() int { return F(2) + T0.M(1) }
+
+func MK() int {
+	k := 20
+	f := func(x int) int { return x + k + 1 }
+	return f(21)
+}
 `
 
-var c10expr = map[string]string{"named": "F(2)", "method": "T0.M(2)", "closvar": "Clo(2)", "methval": "MV(2)", "chanfn": "CC()"}
-var c10name = map[string]string{"named": "F", "method": "T0.M", "closvar": "Clo", "methval": "MV", "chanfn": "CC"}
-var c10want = map[string]string{"named": "15", "method": "7", "closvar": "8", "methval": "7", "chanfn": "43"}
+var c10expr = map[string]string{"named": "F(2)", "method": "T0.M(2)", "closvar": "Clo(2)", "methval": "MV(2)", "chanfn": "CC()",
+	"chan-send": "CSend()", "chan-recv2": "CRecv2()", "chan-range": "CRange()", "chan-select": "CSel()", "mutex": "MU()", "callsother": "CO()", "mkclosure": "MK()"}
+var c10name = map[string]string{"named": "F", "method": "T0.M", "closvar": "Clo", "methval": "MV", "chanfn": "CC",
+	"chan-send": "CSend", "chan-recv2": "CRecv2", "chan-range": "CRange", "chan-select": "CSel", "mutex": "MU", "callsother": "CO", "mkclosure": "MK"}
+var c10want = map[string]string{"named": "15", "method": "7", "closvar": "8", "methval": "7", "chanfn": "43",
+	"chan-send": "43", "chan-recv2": "43", "chan-range": "43", "chan-select": "43", "mutex": "43", "callsother": "21", "mkclosure": "42"}
+
+// kinds whose body goes through a blocking channel construct (Y: Tick; Block; Tick, like CC)
+func c10isChan(k string) bool { return k == "chanfn" || strings.HasPrefix(k, "chan-") }
+
+// kinds without argument
+func c10noArg(k string) bool {
+	return c10isChan(k) || k == "mutex" || k == "callsother" || k == "mkclosure"
+}
 
 func c10show(v reflect.Value, err error) string {
 	if err != nil {
@@ -94,7 +189,7 @@ func c10call(f reflect.Value, kind string) (s string) {
 		return "<not a function>"
 	}
 	var in []reflect.Value
-	if kind != "chanfn" {
+	if !c10noArg(kind) {
 		in = []reflect.Value{reflect.ValueOf(2)}
 	}
 	out := f.Call(in)
@@ -124,9 +219,19 @@ func c10runHist(j c09job) (res c09res) {
 		hostEval[k] = v
 	}
 	syms := func() map[string]reflect.Value { return ip.Symbols("main")["main"] }
-	hostSym := map[string]reflect.Value{"named": syms()["F"], "closvar": syms()["Clo"], "methval": syms()["MV"], "chanfn": syms()["CC"]}
-	// reference: every use before the first cancellation
+	hostSym := map[string]reflect.Value{}
+	for k, n := range c10name {
+		if k != "method" {
+			hostSym[k] = syms()[n]
+		}
+	}
+	// reference: every use before the first cancellation. In a "cold" session the functions with a
+	// blocking construct are NOT executed here: their first execution comes later (possibly inside the
+	// evaluation that is cancelled); their values are the constants every warm session confirms.
 	for k, e := range c10expr {
+		if !j.Warm && c10isChan(k) {
+			continue
+		}
 		if got := c10show(ip.Eval(e)); got != c10want[k] {
 			res.Err = fmt.Sprintf("before any cancellation %s = %s, want %s", e, got, c10want[k])
 			return
@@ -206,6 +311,18 @@ func c10cancel(ip *interp.Interpreter, ev c10ev, nchan *int, gen *uint64, before
 	case "expired":
 		src = "host.Tick(99)"
 		k = 1
+	case "in-def":
+		// the evaluation that is cancelled calls an earlier definition and blocks inside its blocking
+		// construct: the partner goroutine is held in the host until the cancellation is over
+		src = c10expr[ev.Kind]
+		k = 0
+		hold := make(chan struct{})
+		c09hold.Store(&hold)
+		defer func() {
+			if c09hold.Swap(nil) != nil {
+				close(hold)
+			}
+		}()
 	}
 	// no goroutine of an earlier use may still be on its way out: it would be the one the hook parks
 	if left, _, _, _ := c09settle(before, c09ExitBound, nil); len(left) > 0 {
@@ -229,7 +346,8 @@ func c10cancel(ip *interp.Interpreter, ev c10ev, nchan *int, gen *uint64, before
 		errc <- err
 	}()
 	if ev.What != "expired" {
-		tick := time.NewTicker(5 * time.Millisecond)
+		tick := time.NewTicker(time.Millisecond)
+		still := 0
 	wait:
 		for {
 			select {
@@ -242,8 +360,20 @@ func c10cancel(ip *interp.Interpreter, ev c10ev, nchan *int, gen *uint64, before
 				r.mu.Lock()
 				n := r.n
 				r.mu.Unlock()
-				if k == 0 && n > 0 && time.Since(time.Unix(0, atomic.LoadInt64(&r.lastMove))) > c09StallQuiet {
+				if k != 0 || n == 0 {
+					continue
+				}
+				if time.Since(time.Unix(0, atomic.LoadInt64(&r.lastMove))) > c09StallQuiet {
 					break wait
+				}
+				// standstill seen directly: every goroutine of the evaluation sits in a channel operation
+				// (or in the host, held back), twice in a row
+				if c09allWaiting(before) {
+					if still++; still >= 2 {
+						break wait
+					}
+				} else {
+					still = 0
 				}
 			}
 		}
@@ -285,6 +415,9 @@ func c10cancel(ip *interp.Interpreter, ev c10ev, nchan *int, gen *uint64, before
 	r.returned = true
 	r.mu.Unlock()
 	r.release()
+	if h := c09hold.Swap(nil); h != nil {
+		close(*h) // the partner goroutines may go on now
+	}
 	runaway := func() bool {
 		r.mu.Lock()
 		defer r.mu.Unlock()
@@ -344,7 +477,7 @@ func (s *c10state) region(ev c10ev) string {
 			return "closure-after-cancel"
 		}
 		return ""
-	case "chanfn":
+	case "chanfn", "chan-send", "chan-recv2", "chan-range", "chan-select":
 		if host {
 			if !s.sinceExec {
 				return "hostheld-between"
@@ -367,9 +500,10 @@ func (s *c10state) region(ev c10ev) string {
 }
 
 func c10gen(r *rng, stream string, maxLen int) []c10ev {
-	kinds := []string{"named", "method", "closvar", "methval", "chanfn"}
+	kinds := []string{"named", "method", "closvar", "methval", "chanfn", "chan-send", "chan-recv2", "chan-range", "chan-select", "mutex", "callsother", "mkclosure"}
+	chans := []string{"chanfn", "chan-send", "chan-recv2", "chan-range", "chan-select"}
 	vias := []string{"eval", "evalctx", "host-eval", "host-sym"}
-	cancels := []string{"busy", "busy", "blocked", "expired"}
+	cancels := []string{"busy", "busy", "blocked", "expired", "in-def", "in-def"}
 	st := &c10state{}
 	var h []c10ev
 	n := 4 + r.intn(maxLen-3)
@@ -390,6 +524,9 @@ func c10gen(r *rng, stream string, maxLen int) []c10ev {
 			}
 		case x < 9:
 			ev = c10ev{Op: "cancel", What: cancels[r.intn(len(cancels))], K: 1 + r.intn(9)}
+			if ev.What == "in-def" {
+				ev.Kind = chans[r.intn(len(chans))]
+			}
 			if ev.What == "expired" && stream == "" && r.chance(50) {
 				continue
 			}
@@ -403,9 +540,10 @@ func c10gen(r *rng, stream string, maxLen int) []c10ev {
 }
 
 func c10coq(h []c10ev) string {
-	k := map[string]string{"named": "KNamed", "method": "KMethod", "closvar": "KClosVar", "methval": "KMethVal", "chanfn": "KChanFn"}
+	k := map[string]string{"named": "KNamed", "method": "KMethod", "closvar": "KClosVar", "methval": "KMethVal", "chanfn": "KChanFn",
+		"chan-send": "KChanFn", "chan-recv2": "KChanFn", "chan-range": "KChanFn", "chan-select": "KChanFn", "mutex": "KNamed", "callsother": "KNamed", "mkclosure": "KNamed"}
 	v := map[string]string{"eval": "VEval", "evalctx": "VEvalCtx", "host-eval": "VHost", "host-sym": "VHost"}
-	c := map[string]string{"busy": "CBusy", "blocked": "CBlocked", "expired-ran": "CExpRan", "expired-not": "CExpNot"}
+	c := map[string]string{"busy": "CBusy", "blocked": "CBlocked", "expired-ran": "CExpRan", "expired-not": "CExpNot", "in-def": "CInDef"}
 	var it []string
 	for _, ev := range h {
 		switch ev.Op {
@@ -437,28 +575,38 @@ func runC10(args []string) error {
 	r := newRng(*seed)
 	sm := newSummary("C10")
 	sm.RefMismatches = []refMismatch{}
-	nMain, nReg, maxLen := 5000, 400, 12
+	nMain, nReg, maxLen := 3500, 300, 12
 	if *tier == "thorough" {
 		nMain, nReg, maxLen = 40000, 4000, 12
 	}
 	type meta struct {
 		stream string
 		h      []c10ev
+		warm   bool
 	}
 	var jobs []c09job
 	metas := map[int]meta{}
 	id := 0
-	add := func(stream string, h []c10ev) {
+	addw := func(stream string, h []c10ev, warm bool) {
 		id++
-		jobs = append(jobs, c09job{ID: id, Kind: "hist", Hist: h})
-		metas[id] = meta{stream, h}
+		jobs = append(jobs, c09job{ID: id, Kind: "hist", Hist: h, Warm: warm})
+		metas[id] = meta{stream, h, warm}
 	}
+	add := func(stream string, h []c10ev) { addw(stream, h, id%2 == 1) }
 	// the witnesses of the _refuted theorems, replayed
 	use := func(k, v string) c10ev { return c10ev{Op: "use", Kind: k, Via: v} }
 	busy := c10ev{Op: "cancel", What: "busy", K: 5}
 	add("closure-after-cancel", []c10ev{use("closvar", "eval"), busy, use("closvar", "eval"), use("closvar", "host-eval"), use("named", "eval"), use("closvar", "eval")})
 	add("hostheld-between", []c10ev{use("named", "host-eval"), busy, use("named", "host-eval"), use("method", "host-eval"), use("named", "eval"), use("named", "host-eval")})
 	add("plain-eval-chan", []c10ev{use("chanfn", "eval"), busy, use("chanfn", "eval"), use("chanfn", "evalctx"), use("chanfn", "eval")})
+	// corpus: a definition with a blocking construct whose FIRST execution happens inside the evaluation that
+	// is cancelled (cold session), then used again; and the same after a first normal execution (warm)
+	for _, k := range []string{"chanfn", "chan-send", "chan-recv2", "chan-range", "chan-select"} {
+		indef := c10ev{Op: "cancel", What: "in-def", Kind: k}
+		for _, warm := range []bool{false, true} {
+			addw("", []c10ev{indef, use(k, "evalctx"), use("named", "eval"), use(k, "evalctx"), busy, use(k, "evalctx")}, warm)
+		}
+	}
 	for i := 0; i < nMain; i++ {
 		add("", c10gen(r.fork(), "", maxLen))
 	}
@@ -487,7 +635,8 @@ func runC10(args []string) error {
 			sm.count("skipped-after-repeated-run-aways")
 			continue
 		}
-		in := map[string]any{"definitions": "F, T.M, T0, Clo (function literal), MV (method value), CC (channel rendez-vous); host holds Eval(name) and Symbols values", "history": res.HistEvents}
+		in := map[string]any{"definitions": "F, T.M, T0, Clo (function literal), MV (method value), CC CSend CRecv2 CRange CSel (rendez-vous through receive, send, two-value receive, range, select), MU (mutex, WaitGroup), CO (calls F and T0.M), MK (creates and calls a function literal); host holds Eval(name) and Symbols values",
+			"session": map[bool]string{true: "warm: every definition executed once before the history", false: "cold: the definitions with a blocking construct are first executed by the history"}[metas[i].warm], "history": res.HistEvents}
 		if res.Err != "" {
 			in["history_generated"] = m.h
 		}
